@@ -119,6 +119,7 @@ class Loop:
             a.value.value.func.attr in ("get", "pop") and not a.value.value.args
         if not ok: raise T.TranslateError(f"{self.fn}: first statement of the loop is not `v = queue.get().x`")
         self.v = a.targets[0].id
+        self.popname = a.value.value.func.attr
         # if visited[v] : continue
         g = body.pop(0)
         ok = isinstance(g, ast.If) and not g.orelse and len(g.body) == 1 and isinstance(g.body[0], ast.Continue) and \
@@ -175,6 +176,11 @@ def _function(tree, fn, tag):
     # initialisation: the dict initialisers, `distance[start] = 0.` and `queue.push(start, 0.)` before the loop
     inits, extra = {}, []
     L = Loop(fn)
+    # use site 1 of the queue class: `queue = PriorityQueue()` (exactly once, before the loop, never re-bound)
+    created = [n for n in ast.walk(f) if isinstance(n, ast.Assign) and any(_is_name(t, "queue") for t in n.targets)]
+    if not (len(created) == 1 and created[0] in f.body[:idx] and isinstance(created[0].value, ast.Call) and _is_name(created[0].value.func, "PriorityQueue")
+            and not created[0].value.args and not created[0].value.keywords):
+        raise T.TranslateError(f"{fn}: `queue = PriorityQueue()` (once, before the loop) not found")
     for n in f.body[:idx]:
         d = _dict_init(n)
         if d and d[0] in FIELDS:
@@ -190,7 +196,30 @@ def _function(tree, fn, tag):
     init = [f"def init_{tag} (start : Nat) : State :=",
             f"  let s : State := {{ visited := fun _ => {inits['visited']}, pred := fun _ => {inits['pred']}, "
             f"dist := fun _ => {inits['dist']}, queue := [] }}"] + extra + ["  s", ""]
-    return init + L.loop(w, tag)
+    lines = init + L.loop(w, tag)
+    POPNAME[tag] = L.popname
+    return lines
+
+
+POPNAME = {}
+
+
+def _heap_variant(lines, tag):
+    """the same translated loop with the four use sites of PriorityQueue bound to the class AS TRANSLATED by property C20
+    (Generated/C20PQ.lean over the binary-heap model of heapq): PriorityQueue() -> initData, push -> push, get/pop -> get_/pop_,
+    empty -> empty"""
+    out = []
+    pop = {"get": "C20PQ.get_", "pop": "C20PQ.pop_"}[POPNAME[tag]]
+    for l in lines:
+        l = l.replace(f"def init_{tag} ", f"def initH_{tag} ").replace(f"def relax_{tag} ", f"def relaxH_{tag} ")
+        l = l.replace(f"def step_{tag} (pop : Pop) (adj : Adj)", f"def stepH_{tag} (adj : Adj)")
+        l = l.replace("queue := [] }", "queue := C20PQ.initData }").replace("queue := push s.queue", "queue := C20PQ.push s.queue")
+        l = l.replace(f"(relax_{tag} ", f"(relaxH_{tag} ")
+        if l.strip() == "match pop s.queue with":
+            out.append("  if C20PQ.empty s.queue then none else")          # `while not queue.empty()`
+            l = f"  match {pop} s.queue with"
+        out.append(l)
+    return out
 
 
 def _item_lt(tree):
@@ -238,6 +267,19 @@ def _stub(name, ns, sites):
     bad = "; ".join(f"{s['site']}: {str(s.get('detail'))[:160]}" for s in sites if not s["ok"]).replace("-/", "- /")
     T.write_generated(name, f"/- TRANSLATION FAILED on the current source tree, no definitions emitted.\n{bad}\n-/\nnamespace {ns}\nend {ns}\n")
 
+HEADER_HEAP = """import Mouette.Model.Dijkstra
+import Mouette.Generated.C20PQ
+/-
+The two Dijkstra loops of mouette/processing/paths.py, statement by statement as in C09Loop.lean, with the four use sites of
+`PriorityQueue` (constructor, push, get, empty) bound to mouette/utils/priority_queue.py AS TRANSLATED by property C20
+(Generated/C20PQ.lean: heapq's heappush / heappop on a list). Bridges and theorems: Mouette/Props/C09Heap.lean.
+-/
+namespace Mouette.Generated.C09H
+open Mouette.Dijkstra Mouette.PQ Mouette.Generated
+
+"""
+
+
 def translate():
     sites = []
     out = {}
@@ -267,4 +309,14 @@ def translate():
         T.write_generated("C09Loop", body, HEADER)
     else:
         _stub("C09Loop", "Mouette.Generated.C09", sites)
+    # round 6: the loops on the queue class as translated by property C20 (re-run here so that C20PQ.lean is of THIS tree)
+    from ..gen import c20_translate
+    pq = T.site("priority_queue.py: PriorityItem / PriorityQueue (translation of property C20, re-run because Generated.C09H uses it)",
+                c20_translate.site_priority_queue)
+    sites.append(pq)
+    if ok and pq["ok"]:
+        body = "\n".join(_heap_variant(out["sp"], "sp") + _heap_variant(out["set"], "set")) + "\nend Mouette.Generated.C09H\n"
+        T.write_generated("C09Heap", body, HEADER_HEAP)
+    else:
+        _stub("C09Heap", "Mouette.Generated.C09H", sites)
     return sites
